@@ -1,7 +1,7 @@
 (* Non-vacuity examples for C16: concrete states meeting the theorems' hypotheses. *)
 From Coq Require Import ZArith QArith List Permutation String.
 From PAFCommon Require Import PyFloat PyNum Lists.
-From PAFC16 Require Import Gen Lib Machine Model Proofs Proofs2 Proofs3.
+From PAFC16 Require Import Gen Lib Machine Model Proofs Proofs2 Proofs3 Proofs4.
 Import ListNotations.
 
 Example grid_2_3_has_9_cells : List.length (grid_lists_Q 2 3) = 9%nat.
@@ -76,3 +76,26 @@ Proof. repeat split; [left; reflexivity | right; reflexivity | intros [H|H]; dis
 Example sens_history_sizes :
   map out_size (sens_run_Q code_policy [2%Z] [OLists 1; OSetSteps [3%Z; 2%Z]; OCells 1; OSetSteps [4%Z]; OLists 1]) = [2; 6; 4]%nat.
 Proof. vm_compute. reflexivity. Qed.
+
+(* --- sharing patterns --- perturb_model.sigma = perturb_model.centre: three attributes hold priors, two priors
+   are distinct; 3 steps fit 9 cells of shape (3, 3); one entry per attribute would report (3, 3, 3) = 27 cells *)
+Example shared_prior_model :
+  prior_count [Some 7%Z; Some 9%Z; Some 7%Z] = 2%nat /\ distinct_priors [Some 7%Z; Some 9%Z; Some 7%Z] = [9%Z; 7%Z]
+  /\ sens_shape (StepsInt 3) [Some 7%Z; Some 9%Z; Some 7%Z] = [3%Z; 3%Z]
+  /\ List.length (sens_model_lists_Q (StepsInt 3) [Some 7%Z; Some 9%Z; Some 7%Z]) = 9%nat
+  /\ sens_shape_per_attribute (StepsInt 3) [Some 7%Z; Some 9%Z; Some 7%Z] = [3%Z; 3%Z; 3%Z]
+  /\ prior_count [None; Some 4%Z; None] = 1%nat.
+Proof. vm_compute. repeat split; reflexivity. Qed.
+
+Example shared_prior_hypotheses :
+  steps_ok (StepsInt 3) [Some 7%Z; Some 9%Z; Some 7%Z] /\ steps_ok (StepsTuple [3%Z; 2%Z]) [Some 7%Z; Some 9%Z; Some 7%Z]
+  /\ ~ NoDup (slot_ids [Some 7%Z; Some 9%Z; Some 7%Z]).
+Proof.
+  split; [simpl; discriminate|]. split.
+  - split; [repeat constructor; discriminate | reflexivity].
+  - simpl. intro H. inversion H as [|x l Hn _]. apply Hn. right. left. reflexivity.
+Qed.
+
+Example grid_prior_named_twice : gs_dimensions [5%Z; 2%Z; 5%Z] = 2%nat /\ gs_shape 4 [5%Z; 2%Z; 5%Z] = [4%Z; 4%Z]
+  /\ List.length (grid_lists_Q (gs_dimensions [5%Z; 2%Z; 5%Z]) 4) = 16%nat.
+Proof. vm_compute. repeat split; reflexivity. Qed.
